@@ -1123,6 +1123,9 @@ func TestMC_C08(t *testing.T) {
 		}
 	}
 
+	// ================= transport: parsed messages survive later receives (mc_c08_transport_test.go)
+	c08Transport(c, fx)
+
 	// ================= samples and guards
 	c.Set("builder_cases", len(fx.cases))
 	c.Set("point_positions", len(ptJobs))
